@@ -259,6 +259,17 @@ struct WindowOp {
     /// concurrent cache: a maintenance run took place inside the operation (before the
     /// operation's own read/write was queued)
     maint_inside: bool,
+    /// a get that returned a value
+    hit: bool,
+    /// the key of the operation was physically in the map before the operation
+    in_map_before: bool,
+    /// queue lengths (reads, writes) and physically held keys after the operation
+    rq_after: usize,
+    wq_after: usize,
+    phys_after: Vec<u32>,
+    /// popularity estimates of the key universe read after the operation (only when a
+    /// maintenance run took place inside it: they are the estimates that run decided with)
+    est_after: Option<HashMap<u32, u8>>,
 }
 
 pub struct Exec<'a> {
@@ -287,6 +298,7 @@ pub struct Exec<'a> {
     q_est: HashMap<u32, u8>,
     // C04
     maint_inside_op: bool,
+    last_get_hit: bool,
     /// sum of in-place growths since the previous quiescent point
     window_growth: u64,
     allowed_excess: u64,
@@ -299,6 +311,12 @@ pub struct Exec<'a> {
     est_prev: HashMap<u32, u8>,
     unaccounted_gets: u64,
     resets_prev: u32,
+    /// C14 lower bound: estimates when no read was queued last, gets per key since then,
+    /// and whether the bound is decidable for the stretch since then
+    sk_settled: HashMap<u32, u8>,
+    sk_gets: HashMap<u32, u32>,
+    sk_undecidable: bool,
+    sk_enabled_at_settle: bool,
     removal_causes: BTreeSet<&'static str>,
     burst_total: u64,
     all_windows_single: bool,
@@ -351,6 +369,7 @@ impl<'a> Exec<'a> {
             window: Vec::new(),
             q_est: HashMap::new(),
             maint_inside_op: false,
+            last_get_hit: false,
             window_growth: 0,
             allowed_excess: 0,
             sync_growth: 0,
@@ -359,6 +378,10 @@ impl<'a> Exec<'a> {
             est_prev: HashMap::new(),
             unaccounted_gets: 0,
             resets_prev: 0,
+            sk_settled: HashMap::new(),
+            sk_gets: HashMap::new(),
+            sk_undecidable: false,
+            sk_enabled_at_settle: false,
             removal_causes: BTreeSet::new(),
             burst_total: 0,
             all_windows_single: true,
@@ -706,6 +729,7 @@ impl<'a> Exec<'a> {
                 touches_sketch = true;
                 gets_in_op = 1;
                 let r = self.sub().get(k);
+                self.last_get_hit = r.is_some();
                 self.note_probe(k, r.is_some());
                 self.tr(format!("get(k{k}) -> {:?}", r.map(|(s, _)| format!("v{s}"))));
                 self.results.push((step, format!("get(k{k})={:?}", r.map(|x| x.0))));
@@ -1134,7 +1158,34 @@ impl<'a> Exec<'a> {
         let quiescent_point = if sync { explicit_sync && post.quiescent() } else { true };
         let is_time = matches!(prim, Prim::Advance { .. } | Prim::AdvanceTo { .. } | Prim::IterAdvance { .. } | Prim::Handle { .. });
         if !is_time && !matches!(prim, Prim::Sync) {
-            self.window.push(WindowOp { step, prim: prim.clone(), now: self.now, expired_before, matched, maint_inside: self.maint_inside_op });
+            let key_of = match prim {
+                Prim::Insert { k, .. } | Prim::Get { k } | Prim::Invalidate { k } | Prim::Contains { k } => Some(*k),
+                _ => None,
+            };
+            let follow_runs = sync && self.flags.predictive() && self.pred_ok;
+            let est_after = if follow_runs && self.maint_inside_op {
+                let mut m = HashMap::new();
+                for k in self.universe() {
+                    m.insert(k, self.subr().freq(k));
+                }
+                Some(m)
+            } else {
+                None
+            };
+            self.window.push(WindowOp {
+                step,
+                prim: prim.clone(),
+                now: self.now,
+                expired_before,
+                matched,
+                maint_inside: self.maint_inside_op,
+                hit: matches!(prim, Prim::Get { .. }) && self.last_get_hit,
+                in_map_before: key_of.map_or(false, |k| self.pre.has(k)),
+                rq_after: post.read_q,
+                wq_after: post.write_q,
+                phys_after: if follow_runs { post.keys() } else { Vec::new() },
+                est_after,
+            });
         }
 
         if self.flags.term && sync && explicit_sync && !post.quiescent() {
@@ -1275,6 +1326,38 @@ impl<'a> Exec<'a> {
         }
         if reset_happened {
             self.stats.inc("aging_steps_seen");
+        }
+        // ---- lower bound: the estimate is at least the number of recorded lookups ----
+        // A get (hit or miss) is recorded once the estimator is switched on; the only
+        // lookups the concurrent cache may leave unrecorded are those it drops because its
+        // read queue is full. Decided over stretches without an aging step, from one
+        // moment with no read queued to the next.
+        if reset_happened {
+            self.sk_undecidable = true;
+        }
+        if let Prim::Get { k } = prim {
+            *self.sk_gets.entry(*k).or_insert(0) += 1;
+            if self.is_sync() && !self.maint_inside_op && post.read_q == self.pre.read_q {
+                // the read queue was full: this lookup was dropped
+                self.sk_undecidable = true;
+                self.stats.inc("lookups_dropped_by_a_full_read_queue");
+            }
+        }
+        if !self.is_sync() || (post.read_q == 0 && !post.sync_running) {
+            if !self.sk_undecidable && self.sk_enabled_at_settle {
+                for (k, n) in &self.sk_gets {
+                    let (Some(a), Some(b)) = (self.sk_settled.get(k), self.est_prev.get(k)) else { continue };
+                    let need = (*a as u32 + *n).min(15) as u8;
+                    if *b < need {
+                        viol!("C14", step, "k{k} was looked up {n} time(s) since its estimate was {a} (no aging step, no lookup dropped, estimator switched on), but its estimate is {b} < {need}: a lookup was not recorded");
+                    }
+                    self.stats.inc("recorded_lookup_lower_bounds_checked");
+                }
+            }
+            self.sk_settled = self.est_prev.clone();
+            self.sk_gets.clear();
+            self.sk_undecidable = false;
+            self.sk_enabled_at_settle = post.sketch_enabled;
         }
         self.resets_prev = resets_now;
         // once no read is queued any more, every get has been accounted for
@@ -1542,6 +1625,9 @@ impl<'a> Exec<'a> {
             self.stats.inc("prediction_abandoned");
             return Ok(());
         }
+        if sync && !sync_expiry {
+            return self.check_prediction_runs(step, window, post);
+        }
         // Windows of several operations are followed only in the one shape whose
         // meaning does not depend on maintenance internals: the concurrent cache,
         // nothing but inserts, all of them still queued when the explicit sync()
@@ -1790,6 +1876,421 @@ impl<'a> Exec<'a> {
             self.order_changed_since_eviction = true;
         }
         if let Some((_k, admit, c_est, v_est, victims)) = &decision {
+            if *admit {
+                self.stats.inc("admitted_with_victims");
+            } else {
+                self.stats.inc("rejected_newcomers");
+                if !victims.is_empty() {
+                    self.stats.inc("rejected_by_popularity");
+                }
+            }
+            if !victims.is_empty() && (*c_est as i64 - *v_est as i64).abs() <= 1 {
+                self.stats.inc("admission_close_calls");
+            }
+        }
+        self.rec = rec;
+        Ok(())
+    }
+
+    // ---- C12 / C13 / C03-loss on the concurrent cache: one model step per maintenance run ----
+    //
+    // The operations issued since the previous quiescent point are applied to the model in
+    // the groups in which maintenance applied them: an operation that ran a maintenance run
+    // of its own (before queueing its own read / write; observed through the switch-point
+    // counter) closes the group of everything queued before it, the explicit sync() closes
+    // the last one. Within a run: recorded reads first (in recording order), then the writes
+    // (in queueing order), then the excess over max_capacity is evicted. The estimates each
+    // run decided with are read right after the operation that contained it (only applied
+    // reads feed the estimator). After every run the predicted resident set is compared with
+    // the physically held keys. Situations whose outcome the statements do not fix (a victim
+    // walk that meets the node of an invalidated key whose removal is still queued, an
+    // excess eviction that meets a key whose update is not queued yet) end the prediction
+    // for the case instead of being guessed.
+    fn check_prediction_runs(&mut self, step: usize, window: &[WindowOp], post: &Snap) -> Result<(), Violation> {
+        #[derive(Clone)]
+        struct Pend {
+            idx: usize,
+            /// superseded by a later insert / invalidate of the key (map no longer holds its entry)
+            stale: bool,
+        }
+        enum RunEnd {
+            Ok,
+            Abandon(&'static str),
+        }
+        struct Out {
+            evicted: Vec<u32>,
+            decisions: Vec<(u32, bool, u32, u32, Vec<u32>)>,
+            moved: bool,
+            /// keys whose current map entry was removed by an eviction of this run
+            dead_keys: Vec<u32>,
+            /// a decision whose LRU prefix held a key that had been invalidated (removal
+            /// still queued): (newcomer, admit under reading 1, under reading 2, estimates)
+            gone_decision: Option<(u32, bool, bool, u32, u32, u32)>,
+        }
+        let cap = self.cfg.cap;
+        let cfg = self.cfg;
+        let mut rec = self.rec.clone();
+        let mut pending: Vec<Pend> = Vec::new();
+        let mut all_evicted: Vec<u32> = Vec::new();
+        let mut all_decisions: Vec<(u32, bool, u32, u32, Vec<u32>)> = Vec::new();
+        let mut moved_any = false;
+        let mut runs_desc: Vec<String> = Vec::new();
+        let mut auto_runs = 0u64;
+        let mut rq_known = true;
+
+        // one maintenance run over `pending`; `trigger` is the operation inside which it ran
+        // (its effect on the map precedes the run, its own read / write is queued after it)
+        let run = |rec: &mut Vec<(u32, u32)>, pending: &[Pend], trigger: Option<&WindowOp>, est: &HashMap<u32, u8>, out: &mut Out| -> RunEnd {
+            // keys that are gone from the map while their node is still in the queue
+            let invalidated_later = |from: usize, k: u32| -> bool {
+                pending[from..].iter().any(|p| matches!(window[p.idx].prim, Prim::Invalidate { k: k2 } if k2 == k))
+                    || matches!(trigger.map(|t| &t.prim), Some(Prim::Invalidate { k: k2 }) if *k2 == k)
+            };
+            // reads
+            for p in pending {
+                let w = &window[p.idx];
+                if let Prim::Get { k } = w.prim {
+                    if w.hit {
+                        if let Some(pos) = rec.iter().position(|x| x.0 == k) {
+                            if pos + 1 != rec.len() {
+                                out.moved = true;
+                            }
+                            let e = rec.remove(pos);
+                            rec.push(e);
+                        }
+                    }
+                }
+            }
+            // writes
+            for (pi, p) in pending.iter().enumerate() {
+                let w = &window[p.idx];
+                match w.prim {
+                    Prim::Insert { k, w: wv } => {
+                        if p.stale || out.dead_keys.contains(&k) {
+                            continue;
+                        }
+                        let mw = weight_of(cfg, wv);
+                        if let Some(pos) = rec.iter().position(|x| x.0 == k) {
+                            if pos + 1 != rec.len() {
+                                out.moved = true;
+                            }
+                            rec.remove(pos);
+                            rec.push((k, mw));
+                            continue;
+                        }
+                        let total: u64 = rec.iter().map(|x| x.1 as u64).sum();
+                        match cap {
+                            None => rec.push((k, mw)),
+                            Some(c) if total + mw as u64 <= c => rec.push((k, mw)),
+                            Some(c) if mw as u64 > c => out.decisions.push((k, false, 0, 0, Vec::new())),
+                            Some(_) => {
+                                // The LRU prefix. A key that was invalidated while its removal
+                                // is still queued behind this insert has left the map but not
+                                // yet the queue and the counters. Two readings of "the shortest
+                                // LRU prefix of residents" are possible then: (1) such a key is
+                                // no resident any more and is passed over; (2) in the order in
+                                // which maintenance applies the operations it still is one.
+                                let c_est = est.get(&k).copied().unwrap_or(0) as u32;
+                                let (mut acc1, mut acc2) = (0u64, 0u64);
+                                let (mut v1, mut v2): (Vec<usize>, Vec<u32>) = (Vec::new(), Vec::new());
+                                let (mut f1, mut f2) = (0u32, 0u32);
+                                let mut met_gone = false;
+                                let mut consecutive_gone = 0;
+                                for i in 0..rec.len() {
+                                    if acc1 >= mw as u64 && acc2 >= mw as u64 {
+                                        break;
+                                    }
+                                    let (rk, rw) = rec[i];
+                                    let rf = est.get(&rk).copied().unwrap_or(0) as u32;
+                                    let gone = invalidated_later(pi + 1, rk);
+                                    if acc2 < mw as u64 {
+                                        acc2 += rw as u64;
+                                        f2 += rf;
+                                        v2.push(rk);
+                                    }
+                                    if acc1 < mw as u64 {
+                                        if gone {
+                                            met_gone = true;
+                                            consecutive_gone += 1;
+                                            if consecutive_gone > 3 {
+                                                // how many such nodes a walk passes over before it
+                                                // gives up is the implementation's business
+                                                return RunEnd::Abandon("victim_walk_met_many_invalidated_keys");
+                                            }
+                                        } else {
+                                            consecutive_gone = 0;
+                                            acc1 += rw as u64;
+                                            f1 += rf;
+                                            v1.push(i);
+                                        }
+                                    }
+                                }
+                                let admit1 = acc1 >= mw as u64 && c_est > f1;
+                                let admit2 = acc2 >= mw as u64 && c_est > f2;
+                                if met_gone {
+                                    if out.gone_decision.is_some() {
+                                        return RunEnd::Abandon("victim_walk_met_invalidated_key_twice_in_one_run");
+                                    }
+                                    out.gone_decision = Some((k, admit1, admit2, c_est, f1, f2));
+                                }
+                                let victims: Vec<u32> = v1.iter().map(|i| rec[*i].0).collect();
+                                if acc1 < mw as u64 {
+                                    out.decisions.push((k, false, 0, 0, Vec::new()));
+                                } else {
+                                    if admit1 {
+                                        rec.retain(|x| !victims.contains(&x.0));
+                                        rec.push((k, mw));
+                                        out.evicted.extend(victims.iter().copied());
+                                        // the eviction removes the victim's current map entry: a
+                                        // queued (or about to be queued) update of it has nothing
+                                        // left to apply to
+                                        out.dead_keys.extend(victims.iter().copied());
+                                    }
+                                    out.decisions.push((k, admit1, c_est, f1, victims));
+                                }
+                            }
+                        }
+                    }
+                    Prim::Invalidate { k } => {
+                        if w.in_map_before {
+                            rec.retain(|x| x.0 != k);
+                        }
+                        // a later insert of the key is a fresh entry again
+                        out.dead_keys.retain(|d| *d != k);
+                    }
+                    _ => {}
+                }
+            }
+            // excess over max_capacity
+            if let Some(c) = cap {
+                let total: u64 = rec.iter().map(|x| x.1 as u64).sum();
+                if total > c {
+                    let need = total - c;
+                    let mut got = 0u64;
+                    while got < need && !rec.is_empty() {
+                        let k0 = rec[0].0;
+                        let trig_same = matches!(trigger.map(|t| &t.prim), Some(Prim::Insert { k, .. }) | Some(Prim::Invalidate { k }) if *k == k0);
+                        if trig_same {
+                            return RunEnd::Abandon("excess_eviction_met_key_of_the_running_operation");
+                        }
+                        let (k, w) = rec.remove(0);
+                        got += w as u64;
+                        out.evicted.push(k);
+                        out.dead_keys.push(k);
+                    }
+                }
+            }
+            RunEnd::Ok
+        };
+
+        // the map as the model expects it: residents, plus keys whose insert is queued, minus
+        // keys whose invalidation is queued
+        let expected_map = |rec: &Vec<(u32, u32)>, pending: &[Pend], dead: &[u32]| -> BTreeSet<u32> {
+            let mut m: BTreeSet<u32> = rec.iter().map(|x| x.0).collect();
+            for p in pending {
+                match window[p.idx].prim {
+                    Prim::Insert { k, .. } => {
+                        if !dead.contains(&k) {
+                            m.insert(k);
+                        }
+                    }
+                    Prim::Invalidate { k } => {
+                        m.remove(&k);
+                    }
+                    _ => {}
+                }
+            }
+            m
+        };
+
+        let mut final_est: Option<HashMap<u32, u8>> = None;
+        for i in 0..=window.len() {
+            let wop = window.get(i);
+            if let Some(w) = wop {
+                match w.prim {
+                    Prim::Insert { .. } | Prim::Get { .. } | Prim::Invalidate { .. } | Prim::Contains { .. } | Prim::Iter | Prim::DebugFmt | Prim::Counters => {}
+                    Prim::Burst { gets: true, .. } => {
+                        // the runs inside a burst of lookups decide with estimates that cannot
+                        // be read afterwards: followed only if no insert is waiting
+                        if w.maint_inside && pending.iter().any(|p| !p.stale && matches!(window[p.idx].prim, Prim::Insert { .. })) {
+                            self.pred_ok = false;
+                            self.stats.inc("prediction_abandoned");
+                            return Ok(());
+                        }
+                        rq_known = false;
+                    }
+                    _ => {
+                        self.pred_ok = false;
+                        self.stats.inc("prediction_abandoned");
+                        return Ok(());
+                    }
+                }
+                // the operation's effect on the map comes first
+                if let Prim::Insert { k, .. } | Prim::Invalidate { k } = w.prim {
+                    for p in pending.iter_mut() {
+                        if matches!(window[p.idx].prim, Prim::Insert { k: k2, .. } if k2 == k) {
+                            p.stale = true;
+                        }
+                    }
+                }
+            }
+            let is_run = wop.map_or(true, |w| w.maint_inside);
+            let mut dead_now: Vec<u32> = Vec::new();
+            if is_run {
+                let est: HashMap<u32, u8> = match wop {
+                    Some(w) => w.est_after.clone().unwrap_or_default(),
+                    None => {
+                        let mut m = HashMap::new();
+                        for k in self.universe() {
+                            m.insert(k, self.subr().freq(k));
+                        }
+                        final_est = Some(m.clone());
+                        m
+                    }
+                };
+                if wop.map_or(false, |w| w.est_after.is_none()) {
+                    self.pred_ok = false;
+                    self.stats.inc("prediction_abandoned");
+                    return Ok(());
+                }
+                let mut out = Out { evicted: Vec::new(), decisions: Vec::new(), moved: false, dead_keys: Vec::new(), gone_decision: None };
+                let rec_before = rec.clone();
+                match run(&mut rec, &pending, wop, &est, &mut out) {
+                    RunEnd::Ok => {}
+                    RunEnd::Abandon(why) => {
+                        self.pred_ok = false;
+                        self.stats.inc("prediction_abandoned");
+                        self.stats.inc(why);
+                        return Ok(());
+                    }
+                }
+                if wop.is_some() {
+                    auto_runs += 1;
+                }
+                let desc = format!(
+                    "run {} applied {:?} to residents (LRU->MRU) {:?}",
+                    match wop {
+                        Some(w) => format!("inside {:?}", w.prim),
+                        None => "of the explicit sync()".to_string(),
+                    },
+                    pending.iter().map(|p| format!("{}{:?}", if p.stale { "superseded " } else { "" }, window[p.idx].prim)).collect::<Vec<_>>(),
+                    rec_before.iter().map(|(k, w)| format!("k{k}(w{w},est{})", est.get(k).copied().unwrap_or(0))).collect::<Vec<_>>()
+                );
+                runs_desc.push(desc);
+                moved_any |= out.moved;
+                dead_now = out.dead_keys.clone();
+                pending.clear();
+
+                // compare with what the cache physically holds after this run
+                let (actual, trigger_pend): (BTreeSet<u32>, Vec<Pend>) = match wop {
+                    Some(w) => (w.phys_after.iter().copied().collect(), vec![Pend { idx: i, stale: false }]),
+                    None => (post.entries.iter().map(|e| e.k).collect(), Vec::new()),
+                };
+                let predicted = expected_map(&rec, &trigger_pend, &dead_now);
+                all_evicted.extend(out.evicted.iter().copied());
+                all_decisions.extend(out.decisions.iter().cloned());
+                if out.gone_decision.is_some() && predicted == actual {
+                    self.stats.inc("admission_decisions_with_invalidated_key_in_lru_prefix_confirmed");
+                }
+                if predicted != actual {
+                    self.pred_ok = false;
+                    self.stats.inc("prediction_abandoned");
+                    let diff: Vec<u32> = predicted.symmetric_difference(&actual).copied().collect();
+                    // burst keys and keys that are dead for other reasons belong to other properties
+                    let other = diff.iter().all(|k| *k >= 1_000_000);
+                    if other {
+                        return Ok(());
+                    }
+                    let wrong_decision = out.decisions.iter().find(|d| actual.contains(&d.0) != predicted.contains(&d.0)).cloned();
+                    let at = wop.map_or(step, |w| w.step);
+                    if let Some((k, a1, a2, c_est, f1, f2)) = out.gone_decision {
+                        // only what both readings agree on is demanded
+                        if a1 == a2 && actual.contains(&k) != a1 && self.flags.admit {
+                            viol!("C13", at, "newcomer k{k} (estimate {c_est}) met an invalidated key (removal still queued) in the LRU prefix; passing it over the victims' summed estimate is {f1}, counting it {f2}: either way the newcomer should be {} but it was {}; {}; actual residents {actual:?}",
+                                if a1 { "admitted" } else { "rejected" }, if actual.contains(&k) { "admitted" } else { "rejected" }, runs_desc.join("; "));
+                        }
+                        self.stats.inc("prediction_abandoned_after_invalidated_key_in_lru_prefix");
+                        return Ok(());
+                    }
+                    if self.flags.loss && out.evicted.is_empty() && wrong_decision.is_none() {
+                        let missing: Vec<u32> = predicted.difference(&actual).copied().filter(|k| self.cur(*k).is_some() && !self.dead_hi(*k)).collect();
+                        if let Some(k) = missing.first() {
+                            viol!("C03", at, "k{k} is live and nothing had to leave for capacity in this maintenance run, yet the cache no longer holds it; {}; expected residents {predicted:?}, actual {actual:?}", runs_desc.join("; "));
+                        }
+                    }
+                    if let Some((k, admit, c_est, v_est, victims)) = wrong_decision {
+                        if self.flags.admit {
+                            viol!("C13", at, "newcomer k{k} (estimate {c_est}) against LRU-prefix victims {victims:?} (summed estimate {v_est}): expected {} but it was {}; {}; expected residents {predicted:?}, actual {actual:?}",
+                                if admit { "admission" } else { "rejection with no resident touched" },
+                                if actual.contains(&k) { "admitted" } else { "rejected" },
+                                runs_desc.join("; "));
+                        }
+                        return Ok(());
+                    }
+                    if self.flags.lru {
+                        viol!("C12", at, "expected the cache to remove exactly {:?} for capacity (shortest LRU prefix), leaving {predicted:?}, but it holds {actual:?}; {}", out.evicted, runs_desc.join("; "));
+                    }
+                    return Ok(());
+                }
+            }
+            if let Some(w) = wop {
+                // the operation's own read / write is queued now
+                let own_dead = matches!(w.prim, Prim::Insert { k, .. } if dead_now.contains(&k));
+                pending.push(Pend { idx: i, stale: own_dead });
+                if own_dead {
+                    self.stats.inc("batch_update_of_evicted_resident_dropped");
+                }
+                // the queues must hold exactly what the model thinks is pending (a full
+                // read queue drops reads, ...): otherwise the grouping is unknown
+                let exp_w = pending.iter().filter(|p| match window[p.idx].prim {
+                    Prim::Insert { .. } => true,
+                    Prim::Invalidate { .. } => window[p.idx].in_map_before,
+                    _ => false,
+                }).count();
+                let exp_r = pending.iter().filter(|p| matches!(window[p.idx].prim, Prim::Get { .. })).count();
+                if matches!(w.prim, Prim::Burst { .. }) {
+                    continue;
+                }
+                if w.wq_after != exp_w || (rq_known && w.rq_after != exp_r) {
+                    self.pred_ok = false;
+                    self.stats.inc("prediction_abandoned");
+                    self.stats.inc("prediction_abandoned_queue_lengths_differ");
+                    return Ok(());
+                }
+            }
+        }
+        let _ = final_est;
+
+        // agreement: collect the evidence classes
+        if auto_runs > 0 {
+            self.stats.inc("windows_split_by_automatic_maintenance_runs_followed");
+            if !all_evicted.is_empty() {
+                self.stats.inc("predicted_evictions_confirmed_in_windows_split_by_automatic_runs");
+            }
+        }
+        if window.len() > 1 {
+            self.stats.inc("batch_windows_followed");
+            if window.iter().any(|w| matches!(w.prim, Prim::Get { .. })) {
+                self.stats.inc("batch_windows_with_gets_followed");
+            }
+            if window.iter().any(|w| matches!(w.prim, Prim::Invalidate { .. })) {
+                self.stats.inc("batch_windows_with_invalidations_followed");
+            }
+        }
+        if !all_evicted.is_empty() {
+            self.stats.inc("predicted_evictions_confirmed");
+            if all_evicted.len() >= 2 {
+                self.stats.inc("confirmed_eviction_with_2_victims");
+            }
+            if self.order_changed_since_eviction {
+                self.stats.inc("confirmed_eviction_after_lru_order_change");
+            }
+            self.order_changed_since_eviction = false;
+        }
+        if moved_any {
+            self.order_changed_since_eviction = true;
+        }
+        for (_k, admit, c_est, v_est, victims) in &all_decisions {
             if *admit {
                 self.stats.inc("admitted_with_victims");
             } else {
